@@ -249,7 +249,7 @@ void ExecImpl::op_expect(const Op& op, std::function<void()>* scope_body) {
     for (int i = 0; i < d.nseq; ++i) x.s[i] = rseqs[chosen[static_cast<size_t>(i)]].get();
     Obs oc, od;
     std::vector<XRep> want_release;
-    bool entered = false;
+    bool entered = false, unwinding = false;
     std::function<void()> inner = [&]() {
       entered = true;
       obs_stack.pop_back();                      // creation is over
@@ -257,23 +257,27 @@ void ExecImpl::op_expect(const Op& op, std::function<void()>* scope_body) {
       check_reports(oc, none, false, "expect (scoped form)", "C04,C15");
       check_no_ok(oc, "expect");
       if (!stop) { observe_flags(); state_hashes.push_back(M.hash()); }
-      if (!stop) (*scope_body)();
-      // the scope ends now: what its destructor must (not) report
+      bool aborted = false;
+      if (!stop) { try { (*scope_body)(); } catch (scope_abort const&) { aborted = true; } }
+      // the scope ends now (normally, or because an exception is on its way out): what its destructor must (not) report
       if (!stop) want_release = release_model(id);
       obs_stack.push_back(&od);
+      if (aborted) { unwinding = true; throw scope_abort{}; }   // the expectation is destroyed during stack unwinding
     };
     obs_stack.push_back(&oc);
     bool threw = false;
     try {
       RMock& r = rmocks[static_cast<size_t>(mock)];
       shape_fns(shape).scoped[r.kind](r.kind ? static_cast<void*>(r.m) : static_cast<void*>(r.a), x, inner);
-    } catch (...) { threw = true; }
+    } catch (scope_abort const&) { /* expected when unwinding */ }
+    catch (...) { threw = true; }
     obs_stack.pop_back();
-    if (stop) return;
+    if (stop) { if (unwinding) throw scope_abort{}; return; }
     if (threw || !entered) { fail("C01,C03", "expect_threw", "creating a legal expectation (scoped form) threw: " + describe_exp(id)); return; }
-    check_reports(od, want_release, false, "end of scope", "C04,C15");
+    check_reports(od, want_release, false, unwinding ? "end of scope (left by an exception)" : "end of scope", "C04,C15");
     check_no_ok(od, "end of scope");
-    if (!stop) { observe_flags(); state_hashes.push_back(M.hash()); }
+    if (!stop && !unwinding) { observe_flags(); state_hashes.push_back(M.hash()); }
+    if (unwinding) throw scope_abort{};   // on to the next outer scope
     return;
   }
   Obs o; obs_stack.push_back(&o);
@@ -331,6 +335,46 @@ void ExecImpl::release_exp(int id) {
   if (!stop) { rexps[static_cast<size_t>(id)].inst.reset(); rexps[static_cast<size_t>(id)].cell.reset(); }
 }
 
+// shadow stepping: every open scope ends; real stepping at nesting level 0 (no scope open): nothing to leave
+void ExecImpl::op_unwind(const Op&) {
+  if (!shadow) return;
+  while (!scope_stack.empty()) { int id = scope_stack.back(); scope_stack.pop_back(); if (M.exps[static_cast<size_t>(id)].alive) release_model(id); }
+}
+
+// `seq = trompeloeil::sequence{}`: the overwritten sequence ends exactly like a destroyed one; the object lives on, empty
+void ExecImpl::op_assign_seq(const Op& op) {
+  int id = pick(M.live_seqs(), op.a[0]);
+  if (id < 0) return;
+  MSeq& s = M.seqs[id];
+  std::vector<XRep> want;
+  if (s.list.empty() && s.tainted) { XRep x; x.kind = RK_SEQNOTMET; x.fatal = false; x.optional = true; x.any_of_m = true; want.push_back(x); }
+  if (!s.list.empty()) {
+    XRep x; x.kind = RK_SEQNOTMET; x.fatal = false; x.entries = s.list;
+    bool only_monitors = true;
+    for (auto& en : s.list) if (!en.is_mon) only_monitors = false;
+    if (only_monitors || s.tainted) x.optional = true;
+    if (s.tainted) x.any_of_m = true;
+    want.push_back(x);
+    ++st.p_seq_destroy_nonempty;
+  }
+  for (auto& en : s.list) M.clear_membership(en, id);
+  s.list.clear();
+  s.alive = false;
+  for (auto& e : M.exps) for (int i = 0; i < e.nseq; ++i) if (e.seq[i] == id) { e.seq[i] = -1; e.in_seq[i] = false; e.orphan = true; }
+  for (auto& mo : M.mons) for (int i = 0; i < mo.nseq; ++i) if (mo.seq[i] == id) { mo.seq[i] = -1; mo.in_seq[i] = false; }
+  MSeq fresh; fresh.id = static_cast<int>(M.seqs.size());
+  M.seqs.push_back(fresh);
+  ++st.f_relocate;
+  nontriv("C06"); nontriv("C14");
+  if (shadow) return;
+  Obs o; obs_stack.push_back(&o);
+  *rseqs[static_cast<size_t>(id)] = trompeloeil::sequence{};
+  obs_stack.pop_back();
+  rseqs.push_back(std::move(rseqs[static_cast<size_t>(id)]));   // the same C++ object is now the fresh model sequence
+  check_reports(o, want, false, "move assignment over a sequence", "C06,C15");
+  check_no_ok(o, "assign_seq");
+}
+
 // shadow stepping only: the innermost scope ends (real stepping consumes end_scope in run_range)
 void ExecImpl::op_end_scope(const Op&) {
   if (!shadow || scope_stack.empty()) return;
@@ -341,7 +385,11 @@ void ExecImpl::op_end_scope(const Op&) {
 void ExecImpl::op_release(const Op& op) {
   int id = pick(M.live_exps(), op.a[0]);
   if (id < 0 || busy_exps.count(id) || M.exps[static_cast<size_t>(id)].scoped) return;   // a scoped expectation ends with its scope only
+  // attached operation: performed by the reporter itself if this release reports (the expectation is busy meanwhile)
+  if (!op.nested.empty() && !shadow && depth == 1 && (op.nested[0].second.kind == OP_DESTROY_MOCK || op.nested[0].second.kind == OP_RELEASE)) { reporter_op = &op.nested[0].second; busy_exps.insert(id); }
   release_exp(id);
+  if (reporter_op) reporter_op = nullptr;
+  busy_exps.erase(id);
 }
 
 void ExecImpl::op_abandon(const Op& op) {
